@@ -366,6 +366,8 @@ fn roundtrip_leaves() -> R {
         ("tagged", CBOR::to_tagged_value(100u64, "x")), ("tag 200 inside a leaf", CBOR::to_tagged_value(200u64, CBOR::to_tagged_value(201u64, "inner"))),
         ("date", dcbor::Date::from_timestamp(1_700_000_000.0).into()), ("fractional date", dcbor::Date::from_timestamp(0.5).into()), ("negative date", dcbor::Date::from_timestamp(-1.0).into()),
         ("unsigned that looks like a known value", 5u8.into()),
+        ("value tagged 24 over bytes", CBOR::to_tagged_value(24u64, CBOR::to_byte_string([0x61u8, 0x78]))), ("value tagged 24 over text", CBOR::to_tagged_value(24u64, "x")), ("value tagged 201", CBOR::to_tagged_value(201u64, "x")),
+        ("value tagged 201 over tagged 24", CBOR::to_tagged_value(201u64, CBOR::to_tagged_value(24u64, 5u8))), ("value tagged 200 that is no envelope", CBOR::to_tagged_value(200u64, "x")), ("value tagged 40000", CBOR::to_tagged_value(40000u64, 5u8)),
         ("KNOWN value 2^32-1", u32::MAX.into()), ("KNOWN value 2^32", (1u64 << 32).into()), ("KNOWN value u64::MAX", u64::MAX.into()), ("KNOWN value 65536", 65536u32.into()),
     ];
     let (name, v) = &vals[choice(vals.len())];
